@@ -1,6 +1,7 @@
 // C05 - uriToString never writes beyond the caller's capacity; charsRequired / charsWritten are exact.
 #include "../core.h"
 #include "fixture.h"
+#include "../mm.h"
 #include "corpus.h"
 
 namespace {
@@ -27,7 +28,7 @@ static inline bool near_pow2(int c) { for (int p = 4; p > 0 && p <= (1 << 30); p
 
 template <class C> struct Runner {
     typedef Api<C> A; typedef typename A::Uri Uri;
-    OutBuf ob; Ctx *ctx; Local *lc;
+    OutBuf ob; Ledger led; Ctx *ctx; Local *lc;
     Runner(Ctx *c, Local *l, size_t pages = 8) : ob(pages), ctx(c), lc(l) {}
     static Str enc(const Str &how, int cap, int cw) { return how + "`" + fmt("%d`%d`%s", cap, cw, A::name()); }
     // all capacities for one object; `how` describes how it was made (replayable)
@@ -78,6 +79,14 @@ template <class C> struct Runner {
         auto visit = [&](const char *kind, const Uri &x) { Str how = Str(kind) + ":" + t; if (only_how.empty() || only_how == how) object(how, x, only_cap, only_cw); };
         visit("parsed", u);
         if (A::ParseSingleUriEx(&n, w.data(), w.data() + w.size(), &ep) == URI_SUCCESS) { if (A::NormalizeSyntax(&n) == URI_SUCCESS) visit("normalized", n); A::FreeUriMembers(&n); }
+        // objects left behind by an in-place operation that ran out of memory (the caller may still write them out before freeing them)
+        for (int mask : { 63, 23 }) for (uint64_t k = 1; k <= 12; k++) {
+            Uri f; led.reset(); if (A::ParseSingleUriExMm(&f, w.data(), w.data() + w.size(), &ep, &led.mm) != URI_SUCCESS) { A::FreeUriMembersMm(&f, &led.mm); break; }
+            led.n_requests = 0; led.fail_at = k; int rcn = A::NormalizeSyntaxExMm(&f, (unsigned)mask, &led.mm); bool consumed = led.n_failed > 0; led.clear_injection();
+            if (rcn == URI_ERROR_MALLOC) { Str kind = fmt("oomnorm%d.%llu", mask, (unsigned long long)k); visit(kind.c_str(), f); }
+            A::FreeUriMembersMm(&f, &led.mm); if (!consumed) break;
+        }
+        led.reset();
         if (okb && A::AddBaseUri(&d, &u, &b) == URI_SUCCESS) { visit("resolved", d); A::FreeUriMembers(&d); }
         if (okb && u.scheme.first && A::RemoveBaseUri(&e, &u, &b, URI_FALSE) == URI_SUCCESS) { visit("shortened", e); A::FreeUriMembers(&e); }
         A::FreeUriMembers(&u); if (okb) A::FreeUriMembers(&b);
